@@ -487,6 +487,7 @@ class C06(PoolMixin, SystematicMixin, LegacyMixin, E2ECheck):
     quick_examples = 32000
     thorough_examples = 500000
     profile = {
+        'cancel_points': True,
         'types': ['download'], 'dsts': ['path'], 'ntransfers': (1, 2),
         'subs': {'max': 1, 'size': True}, 'stream_scripts': True,
         'stream_hard_faults': True,
@@ -524,6 +525,7 @@ class C07(E2ECheck):
     quick_examples = 32000
     thorough_examples = 500000
     profile = {
+        'cancel_points': True,
         'latency': True,
         'ntransfers': (1, 3), 'subs': {'max': 1, 'size': True},
         'body_scripts': True, 'stream_scripts': True,
@@ -568,6 +570,7 @@ class C08(E2ECheck):
     quick_examples = 32000
     thorough_examples = 500000
     profile = {
+        'cancel_points': True,
         'latency': True,
         'ntransfers': (1, 3),
         'subs': {'min': 1, 'max': 3, 'size': True, 'raise_done': True},
